@@ -1,7 +1,11 @@
 import Oracle.Proto
-/-! Oracle suites of property C07 (registered in Oracle/Main.lean through `suites`). -/
+import Oracle.Future
+/-! Oracle suites of property C07. -/
 namespace Oracle.C07
 
-def suites : List (String × Suite) := []
+def suites : List (String × Suite) := [
+  ("future", Oracle.Future.model),
+  ("future-judge", Oracle.Future.judge)
+]
 
 end Oracle.C07
